@@ -298,7 +298,7 @@ pub mod subiter {
 
     /// Full traversal compared with the naive greedy sequence, size_hint
     /// asserted before every call. `owned`: go through into_owned().
-    pub fn traverse<const NLEN: usize, const HLEN: usize>(rev: bool, via_finder: bool) {
+    pub fn traverse<const NLEN: usize, const HLEN: usize>(rev: bool, via_finder: bool, calls: usize) {
         force(1);
         let nb: [u8; NLEN] = kani::any();
         let nz1 = [0u8; 1];
@@ -323,7 +323,7 @@ pub mod subiter {
             let finder = memmem::Finder::new(n);
             let mut it = if via_finder { finder.find_iter(h) } else { memmem::find_iter(h, n) };
             let mut k = 0;
-            while k < HLEN + 3 {
+            while k < calls {
                 let left = if k < cnt { cnt - k } else { 0 };
                 let (lo, hi) = it.size_hint();
                 assert!(lo <= left, "oracle: size_hint lower bound above the matches still to come");
@@ -354,7 +354,7 @@ pub mod subiter {
             let finder = memmem::FinderRev::new(n);
             let mut it = if via_finder { finder.rfind_iter(h) } else { memmem::rfind_iter(h, n) };
             let mut k = 0;
-            while k < HLEN + 3 {
+            while k < calls {
                 let got = it.next();
                 let exp = if k < cnt { Some(want[k]) } else { None };
                 assert!(got == exp, "oracle: rfind_iter differs from the mirror-image greedy sequence");
@@ -373,13 +373,13 @@ inst!(fi_step_n1, [props=C08 xprops=C14 tier=quick cfg=x86std t=1500 role=find-i
 inst!(fi_step_n2_rk, [props=C08+C14 xprops=C05 tier=quick cfg=x86std t=1500 role=find-iter-step uw=@RK;@TWNEW;@TWOFF;with_ranker:6;oracle:6;@PP], 3, subiter::find_step::<2, 9>(1, 0, 9));
 inst!(fri_step_n0, [props=C08+C14 tier=quick cfg=x86std t=900 role=rfind-iter-step uw=@RK;@TWNEW;@TWOFF;with_ranker:6;oracle:6], 3, subiter::rfind_step::<0, 12>(0, 12));
 inst!(fri_step_n2_rk, [props=C08 xprops=C05+C14 tier=quick cfg=generic t=1500 role=rfind-iter-step uw=@RK;@TWNEW;@TWOFF;with_ranker:6;oracle:6], 3, subiter::rfind_step::<2, 9>(0, 9));
-inst!(fi_trav_n0_5, [props=C08 xprops=C14 tier=quick cfg=x86std t=1500 role=find-iter-traversal uw=traverse:10;naive:8;@RK;@TWNEW;@TWOFF;with_ranker:6;oracle:6], 3, subiter::traverse::<0, 5>(false, false));
-inst!(fi_trav_n2_4, [props=C08 xprops=C14 tier=quick cfg=x86std t=1500 role=find-iter-traversal uw=traverse:11;naive:9;@RK;@TWNEW;@TWOFF;with_ranker:6;oracle:6;@PP], 3, subiter::traverse::<2, 4>(false, true));
-inst!(fri_trav_n0_5, [props=C08 xprops=C14 tier=quick cfg=x86std t=1500 role=rfind-iter-traversal uw=traverse:10;naive:8;@RK;@TWNEW;@TWOFF;with_ranker:6;oracle:6], 3, subiter::traverse::<0, 5>(true, true));
-inst!(fri_trav_n2_4, [props=C08 xprops=C14 tier=quick cfg=x86std t=1500 role=rfind-iter-traversal uw=traverse:11;naive:9;@RK;@TWNEW;@TWOFF;with_ranker:6;oracle:6;@PP], 3, subiter::traverse::<2, 4>(true, false));
-inst!(fi_trav_n1_7, [props=C08 xprops=C14 tier=thorough cfg=x86std t=3600 role=find-iter-traversal uw=traverse:12;naive:10;@RK;@TWNEW;@TWOFF;with_ranker:6;oracle:6;@MEMCHR], 3, subiter::traverse::<1, 7>(false, false));
-inst!(fi_trav_n3_8, [props=C08 xprops=C14 tier=thorough cfg=x86std t=3600 role=find-iter-traversal uw=traverse:13;naive:11;@RK;@TWNEW;@TWOFF;with_ranker:6;oracle:6;@PP], 3, subiter::traverse::<3, 8>(false, true));
-inst!(fri_trav_n3_8, [props=C08 xprops=C14 tier=thorough cfg=x86std t=3600 role=rfind-iter-traversal uw=traverse:13;naive:11;@RK;@TWNEW;@TWOFF;with_ranker:6;oracle:6;@PP], 3, subiter::traverse::<3, 8>(true, true));
+inst!(fi_trav_n0_5, [props=C08 xprops=C14 tier=quick cfg=x86std t=1500 role=find-iter-traversal uw=traverse:10;naive:8;@RK;@TWNEW;@TWOFF;with_ranker:6;oracle:6], 3, subiter::traverse::<0, 5>(false, false, 8));
+inst!(fi_trav_n2_5x3, [props=C08 xprops=C14 tier=quick cfg=x86std t=1500 role=find-iter-traversal uw=traverse:11;naive:9;@RK;@TWNEW;@TWOFF;with_ranker:6;oracle:6;@PP], 3, subiter::traverse::<2, 5>(false, true, 3));
+inst!(fri_trav_n0_5, [props=C08 xprops=C14 tier=quick cfg=x86std t=1500 role=rfind-iter-traversal uw=traverse:10;naive:8;@RK;@TWNEW;@TWOFF;with_ranker:6;oracle:6], 3, subiter::traverse::<0, 5>(true, true, 8));
+inst!(fri_trav_n2_5x3, [props=C08 xprops=C14 tier=quick cfg=x86std t=1500 role=rfind-iter-traversal uw=traverse:11;naive:9;@RK;@TWNEW;@TWOFF;with_ranker:6;oracle:6;@PP], 3, subiter::traverse::<2, 5>(true, false, 3));
+inst!(fi_trav_n1_7, [props=C08 xprops=C14 tier=thorough cfg=x86std t=3600 role=find-iter-traversal uw=traverse:12;naive:10;@RK;@TWNEW;@TWOFF;with_ranker:6;oracle:6;@MEMCHR], 3, subiter::traverse::<1, 7>(false, false, 10));
+inst!(fi_trav_n3_8, [props=C08 xprops=C14 tier=thorough cfg=x86std t=3600 role=find-iter-traversal uw=traverse:13;naive:11;@RK;@TWNEW;@TWOFF;with_ranker:6;oracle:6;@PP], 3, subiter::traverse::<3, 8>(false, true, 11));
+inst!(fri_trav_n3_8, [props=C08 xprops=C14 tier=thorough cfg=x86std t=3600 role=rfind-iter-traversal uw=traverse:13;naive:11;@RK;@TWNEW;@TWOFF;with_ranker:6;oracle:6;@PP], 3, subiter::traverse::<3, 8>(true, true, 11));
 
 // ---------------------------------------------------------------------------
 // C16: a finder is a pure function of its needle
